@@ -223,8 +223,8 @@ def run(F, R, tier):
     R.guard(_thdm_yukawas, F, R)
 
 
-def _fold(F, qn, argsym, only, pred=None):
-    E = Evaluator(F, inline=lambda n, g: not LOOP.match(n), max_depth=16)
+def _fold(F, qn, argsym, only, pred=None, loop=None):
+    E = Evaluator(F, inline=lambda n, g: not (loop or LOOP).match(n), max_depth=16)
     E.eigen_kinds = True
     fs = [f for f in F.fns(qn) if pred is None or pred(f)]
     if len(fs) != 1:
